@@ -113,7 +113,14 @@ def postCheck (prev cur : State) : Ev → Option String
       | none => none
       | some e =>
         if (e.tags ++ c.tags).all (fun t => decide (t ∈ e'.tags)) then none else some "tags-not-merged"
-  | .remove hs => if hs.any (fun h => (get? h cur.cache).isSome) then some "removed-cert-still-cached" else none
+  | .remove hs =>
+    if hs.any (fun h => (get? h cur.cache).isSome) then some "removed-cert-still-cached"
+    -- tags are merged in, never lost: an entry that stays cached across an operation that is not
+    -- about it (here also: a staple maintenance pass, recorded as the removal of nothing) keeps them
+    else if prev.cache.any (fun p => match get? p.1 cur.cache with
+        | some e' => !(p.2.tags.all (fun t => decide (t ∈ e'.tags)))
+        | none => false) then some "tags-lost"
+    else none
   | .replace o n _ =>
     if (get? n.hash cur.cache).isNone then some "replacement-not-cached"
     else if o.hash ≠ n.hash && (get? o.hash cur.cache).isSome then some "replaced-cert-still-cached"
